@@ -275,6 +275,13 @@ def record_pristine() -> None:
         _PRISTINE[name] = {"owners": [(o, s_) for o, s_, _, _ in owners], "fast": owners}
 
 
+def _safe_eq(a, b) -> bool:
+    try:
+        return bool(a == b)
+    except Exception:
+        return False
+
+
 def _same(obj, saved) -> bool:
     try:
         return len(obj) == len(saved) and bool(obj == saved)
@@ -319,7 +326,7 @@ def restore_pristine() -> int:
                         except Exception:
                             setattr(owner, k, saved.copy())
                         repaired += 1
-                elif now is not obj and not (now == obj and type(now) is type(obj)):
+                elif now is not obj and not (type(now) is type(obj) and _safe_eq(now, obj)):
                     setattr(owner, k, obj)
                     repaired += 1
     return repaired
@@ -327,6 +334,13 @@ def restore_pristine() -> int:
 
 # ------------------------------------------------- several simulated processes, one file system
 import copy as _copy  # noqa: E402
+
+
+def _deep_or_shallow(v):
+    try:
+        return _copy.deepcopy(v)
+    except Exception:
+        return type(v)(v)
 
 
 def capture_process_state() -> dict:
@@ -344,7 +358,7 @@ def capture_process_state() -> dict:
                     kind, obj, saved = snap[k]
                     if kind == "container":
                         # caches start empty: copy them deeply; registries keep their (shared, immutable) members
-                        entry[k] = ("container", _copy.deepcopy(v) if len(saved) == 0 else type(v)(v))
+                        entry[k] = ("container", _deep_or_shallow(v) if len(saved) == 0 else type(v)(v))
                     elif kind == "array":
                         entry[k] = ("array", np.array(v, copy=True))
                     elif kind == "scalar":
@@ -356,6 +370,41 @@ def capture_process_state() -> dict:
                         entry[k] = ("new", v)
             state[(name, idx)] = entry
     return state
+
+
+def copy_process_state(state: dict | None) -> dict | None:
+    """A private copy of a captured state (what a forked child owns)."""
+    if state is None:
+        return None
+    out: dict = {}
+    for key, entry in state.items():
+        e2 = {}
+        for k, (kind, val) in entry.items():
+            if kind == "array":
+                e2[k] = (kind, val.copy())
+            elif kind == "container":
+                try:
+                    e2[k] = (kind, _deep_or_shallow(val) if _is_cache_like(key, k) else type(val)(val))
+                except Exception:
+                    e2[k] = (kind, type(val)(val))
+            elif kind in ("scalar", "new") and not isinstance(val, (int, float, str, bool, bytes, complex, tuple, frozenset, type(None))):
+                try:
+                    e2[k] = (kind, _copy.deepcopy(val))
+                except Exception:
+                    e2[k] = (kind, val)
+            else:
+                e2[k] = (kind, val)
+        out[key] = e2
+    return out
+
+
+def _is_cache_like(key: tuple, attr: str) -> bool:
+    name, idx = key
+    rec = _PRISTINE.get(name)
+    if rec is None:
+        return False
+    snap = rec["owners"][idx][1]
+    return attr in snap and snap[attr][0] == "container" and len(snap[attr][2]) == 0
 
 
 def apply_process_state(state: dict | None) -> None:
@@ -370,7 +419,7 @@ def apply_process_state(state: dict | None) -> None:
                 if kind == "container" and k in snap:
                     obj = snap[k][1]
                     obj.clear()
-                    (obj.update if isinstance(obj, (dict, set)) else obj.extend)(_copy.deepcopy(val) if len(snap[k][2]) == 0 else val)
+                    (obj.update if isinstance(obj, (dict, set)) else obj.extend)(_deep_or_shallow(val) if len(snap[k][2]) == 0 else val)
                 elif kind == "array" and k in snap:
                     try:
                         snap[k][1][...] = val
